@@ -36,7 +36,8 @@ CANON_ORDER = ["SIMUL", "ROCKS", "PARAM", "MOMOP", "START", "NOVER", "RPCAP", "L
 def enum_model(maxsecs, variant="fixed", export=False, workers=16):
     return tlc.run_tlc("MC_T2DataFile", None, cfg_text=CFG % (variant, "CONSTRAINT Emit\n" if export else ""),
                        workers=1 if export else workers, timeout=3000, heap="16g",
-                       extra_modules={"MC_T2DataFile.tla": MOD_ENUM % maxsecs})
+                       extra_modules={"MC_T2DataFile.tla": MOD_ENUM % maxsecs},
+                       extra_args=["-maxSetSize", "30000000"])       # (|Pool|^4 passes TLC's default bound of a million elements)
 
 
 def docs_model(docs):
